@@ -19,6 +19,17 @@ class AnalysisError(Exception):
     """An anchor vanished, a file does not parse, or a rule matched fewer sites than its minimum."""
 
 
+_NEGATED = {ast.Eq: ast.NotEq, ast.NotEq: ast.Eq, ast.Is: ast.IsNot, ast.IsNot: ast.Is, ast.In: ast.NotIn, ast.NotIn: ast.In}
+
+
+def _constant_like(e: ast.AST) -> bool:
+    if isinstance(e, ast.Constant):
+        return True
+    if isinstance(e, ast.Name) and e.id.isupper():
+        return True
+    return isinstance(e, ast.Attribute) and e.attr.isupper() and isinstance(e.value, ast.Name) and e.value.id[:1].isupper()
+
+
 def _canonical(tree: ast.AST) -> ast.AST:
     """Canonical form analysed by every rule: inside function bodies an annotated assignment to a local
     (`x: T = v`) becomes the plain assignment `x = v` (annotations of locals are never evaluated; adding or
@@ -47,6 +58,36 @@ def _canonical(tree: ast.AST) -> ast.AST:
             if self.depth > 0 and node.value is not None and isinstance(node.target, ast.Name):
                 new = ast.Assign(targets=[node.target], value=node.value, type_comment=None)
                 return ast.copy_location(new, node)
+            return node
+
+        # logic shape (inside functions): one spelling per meaning, so that no rule depends on which one was written
+        #   K == x            ->  x == K        (K a literal / None / ALL_CAPS constant; ==, !=, is, is not)
+        #   not (a == b)      ->  a != b        (likewise is / in)
+        #   if not c: A else: B  ->  if c: B else: A
+        def visit_Compare(self, node):
+            self.generic_visit(node)
+            if self.depth > 0 and len(node.ops) == 1 and isinstance(node.ops[0], (ast.Eq, ast.NotEq, ast.Is, ast.IsNot)) and _constant_like(node.left) and not _constant_like(node.comparators[0]):
+                node.left, node.comparators = node.comparators[0], [node.left]
+            return node
+
+        def visit_UnaryOp(self, node):
+            self.generic_visit(node)
+            if self.depth > 0 and isinstance(node.op, ast.Not) and isinstance(node.operand, ast.Compare) and len(node.operand.ops) == 1:
+                flip = _NEGATED.get(type(node.operand.ops[0]))
+                if flip is not None:
+                    node.operand.ops = [flip()]
+                    return ast.copy_location(node.operand, node)
+            return node
+
+        def visit_If(self, node):
+            self.generic_visit(node)
+            if self.depth > 0 and node.orelse:
+                t = node.test
+                if isinstance(t, ast.UnaryOp) and isinstance(t.op, ast.Not):
+                    node.test, node.body, node.orelse = t.operand, node.orelse, node.body
+                elif isinstance(t, ast.Compare) and len(t.ops) == 1 and isinstance(t.ops[0], (ast.NotEq, ast.IsNot, ast.NotIn)):
+                    t.ops = [_NEGATED[type(t.ops[0])]()]
+                    node.body, node.orelse = node.orelse, node.body
             return node
 
     tree = T().visit(tree)
